@@ -1,6 +1,8 @@
 """C13 — cost-aware sizing never overspends. Theorems: Props/C13.v (F := R).
 Correspondence: the Cost model at the IEEE instance against BrokerCost::{trade_impact,
-trade_impact_total, calc} and f64::floor/ceil, bit for bit."""
+trade_impact_total, calc} and f64::floor/ceil, bit for bit.
+Tie by translation: the same functions translated from the source text (tools/rs2v.py) and proved equal to the model
+for every Num F (Check/GenEquiv.v); informative, the correspondence decides."""
 import random
 from fractions import Fraction
 
@@ -122,6 +124,11 @@ def run(res, tier, seed, replay):
 
 def run_pure(res, tier, seed, replay):
     ob = obligations_or_violation(res, ["C13"])
+    # the second tie (DESIGN 8.8): BrokerCost::{calc, trade_impact, trade_impact_total} and Portfolio's two cost
+    # methods are translated from the source text as it is at this run and proved equal to Model/Cost.v for every Num F.
+    # Never an alarm by itself: whatever it says, the sampling below decides exactly as before (a failed equivalence
+    # travels in res.diagnosis into the replay object of what the sampling then reports)
+    tie_by_translation(res, "cost", "GenEquiv")
     wd = workdir("C13")
     rng = random.Random(seed)
     n = tier_size(tier, 1500, 40000)
